@@ -181,6 +181,8 @@ def _run_case(args):
             errors=res.errors[:5],
             n_errors=len(res.errors),
             obligation_names=names,
+            slowest=[(o.name, round(o.time, 2), o.detail) for o in sorted(res.obligations, key=lambda o: -o.time)[:3]],
+            query_timeout_ms=b.get("query_timeout_ms", 20000),
             sample=sample,
             path_samples=res.path_samples,
             validation_points=res.validation_points,
@@ -491,6 +493,7 @@ def run_check(check_id: str, tier: str, seed: int, jobs: int | None = None, only
     cex = []
     n_cex_skipped = 0
     info_lines = set()
+    slow_obs = []
     for (cid, case, _), r in zip(tasks, case_results):
         if r["status"] != "done":
             harness_errors.append(f"case {case['name']}: {r['status']}: {r.get('msg')}\n{r.get('trace', '')}")
@@ -498,6 +501,8 @@ def run_check(check_id: str, tier: str, seed: int, jobs: int | None = None, only
         total.merge(r["stats"])
         for k, v in r["obligation_names"].items():
             ob_names[k] = ob_names.get(k, 0) + v
+        for nm, tm, det in r.get("slowest", []):
+            slow_obs.append((tm, case["name"], nm, det, r.get("query_timeout_ms")))
         per_case.append({"case": case["name"], "paths": r["stats"]["paths"], "obligations": r["stats"]["obligations"], "discharged": r["stats"]["discharged"], "queries": sum(r["stats"]["queries"].values()), "wall_s": round(r["wall_s"], 2), "complete": r["complete"]})
         if r.get("sample"):
             full = r["sample"].get("smt2_negated_claim") or ""
@@ -632,6 +637,7 @@ def run_check(check_id: str, tier: str, seed: int, jobs: int | None = None, only
         "discharged": total.discharged,
         "inconclusive": total.inconclusive,
         "obligation_kinds": ob_names,
+        "slowest_obligations": [{"seconds": t, "case": c, "obligation": n, "how": d, "query_timeout_ms": q} for t, c, n, d, q in sorted(slow_obs, reverse=True)[:8]],
         "reachability_twins_sat": total.reach_ok,
         "reachability_twins_failed": total.reach_fail,
         "denominators_assumed_nonzero": total.nonzero_assumed,
